@@ -3,11 +3,12 @@
 compares the passing test names with /root/.vp/BASELINE.json stable_pass.
 `make check` itself exits non-zero on the pinned tree (TAP sub-results listed
 under always_fail), so results are read per test from the automake .trs files."""
-import glob, json, os, re, subprocess, sys
+import os, glob, json, os, re, subprocess, sys
 repo = os.environ.get("VERIF_REPO", "/repo")
 for p in glob.glob(os.path.join(repo, "test", "**", "*.trs"), recursive=True):
     os.unlink(p)
 r = subprocess.run(["make", "-C", repo, "check", "-j8"], capture_output=True, text=True)
+subprocess.run(["sh", os.path.join(os.path.dirname(os.path.abspath(__file__)), "fixdev.sh")])  # the suite (nasm as root) can replace /dev/stdout by a regular file
 ok, bad = set(), set()
 for p in glob.glob(os.path.join(repo, "test", "**", "*.trs"), recursive=True):
     name = os.path.relpath(p, repo)[:-4]
